@@ -146,4 +146,9 @@ def classify (v6 : Bool) (icmp : Bytes) : Option Nat :=
       if t = (if v6 then 129 else 0) then some (be16 i1 i0) else none
     | _ => none
 
+/-- the clamp at the head of `Ping6` / `ping` (`if timeout <= 0 || timeout > time.Second*10 { timeout = time.Second * 2 }`),
+    in nanoseconds: "the timeout" of the property is this effective value -/
+def effTimeout (t : Int) : Int :=
+  if t ≤ 0 ∨ t > 10000000000 then 2000000000 else t
+
 end PV.Model.Ping
